@@ -45,14 +45,21 @@ class Args:
 
 
 class FakePipe:
-    def __init__(self, data):
+    def __init__(self, data, cut=False):
         self.data = data
+        self.cut = cut
         self.sent = []
 
     def describe(self):
         return "fake-pipe"
 
     def writeToFile(self, f, expected, progress, hasher):
+        if self.cut:
+            # the connection is lost in the middle of the transfer
+            f.write(self.data[:len(self.data) // 2])
+            f.flush()
+            from twisted.internet import error
+            return defer.fail(error.ConnectionClosed())
         f.write(self.data)
         if progress:
             progress(len(self.data))
@@ -186,7 +193,7 @@ def run_case(case):
                 data = make_zip(case["members"])
                 offer = {"directory": {"mode": "zipfile/deflated", "dirname": case["name"], "zipsize": len(data),
                                        "numbytes": len(NEW) * 2, "numfiles": 2}}
-            r._transit_receiver = FakeTransit(FakePipe(data))
+            r._transit_receiver = FakeTransit(FakePipe(data, cut=bool(case.get("cut"))))
             w = FakeWormhole()
             result = []
             try:
@@ -224,6 +231,8 @@ def judge(case, root, cwd, dest, announced, before, after, result):
             {"members": case["members"]} if case["mode"] == "directory" else {}), result), case=case))
     if announced is not None and announced != dest:
         flag("destination", "announced", "announced destination %s is not the documented one %s" % (rel(announced), rel(dest)))
+    if case.get("cut") and ok:
+        flag("cut-transfer", "succeeded", "the connection was lost half way through the transfer but the receive succeeded")
     if case["output"] is None and ok:
         if os.path.dirname(dest) != cwd or dest == cwd:
             flag("destination", "not-a-child", "succeeded with destination %s which is not a child of the working directory" % rel(dest))
@@ -294,6 +303,12 @@ def cases(tier):
                     for acc in accepts:
                         out.append(dict(mode=mode, name=name, output=output, output_kind=kind, pre="none", pretmp=pretmp,
                                         accept=acc, members=BENIGN_ZIP))
+    # the transfer is cut half way: whatever is left behind must still be at the announced place
+    for mode in ("file", "directory"):
+        for name in nm + ["../sibling/evil", "../../sentinel.txt", "/abs/evil", "sub/../../sibling/x", "a/../../sibling/keep.txt"]:
+            for (output, kind) in ((None, None), ("exdir", "existing-dir"), ("out-new", "new")):
+                out.append(dict(mode=mode, name=name, output=output, output_kind=kind, pre="none", pretmp="none",
+                                accept="on", members=BENIGN_ZIP, cut=True))
     # zip member names
     mnames = names(2) + ["/etc/passwd", "../../sentinel.txt", "../a-sibling-dir/keep.txt", "../d-evil/x",
                                                    "sub/../../other.txt", "./f", "f/", "a/../b", "..", "../", "/", "C:\\x", "a/./b"]
